@@ -1,0 +1,43 @@
+//go:build verif
+
+/*
+ * Licensed to the Apache Software Foundation (ASF) under one or more
+ * contributor license agreements.  See the NOTICE file distributed with
+ * this work for additional information regarding copyright ownership.
+ * The ASF licenses this file to You under the Apache License, Version 2.0
+ * (the "License"); you may not use this file except in compliance with
+ * the License.  You may obtain a copy of the License at
+ *
+ *     http://www.apache.org/licenses/LICENSE-2.0
+ *
+ * Unless required by applicable law or agreed to in writing, software
+ * distributed under the License is distributed on an "AS IS" BASIS,
+ * WITHOUT WARRANTIES OR CONDITIONS OF ANY KIND, either express or implied.
+ * See the License for the specific language governing permissions and
+ * limitations under the License.
+ */
+
+package sql
+
+// Verification contracts (comment-only, tag verif) for the AT resource manager and the AT/XA
+// connection proxies.
+
+// C01 (last sentence) / C09 / C10: the resource manager answers 'rollbacked' only when the undo
+// succeeded; a failing undo never becomes a success status.
+//@ ghost var runundo_err_nil bool
+//@ iface (undo.UndoLogManager).RunUndo
+//@   modifies ghost.runundo_err_nil
+//@   ensures ghost.runundo_err_nil == (result == nil)
+//@ ext seata.apache.org/seata-go/pkg/datasource/sql/undo.GetUndoLogManager
+//@   ensures result1 == nil ==> result0 != nil
+
+//@ func (*ATSourceManager).BranchRollback
+//@   prop C01 C09 C10
+//@   requires a != nil
+//@   let known := haskey(syncmap(a, "resourceCache"), box(branchResource.ResourceId, string))
+//@   requires known ==> isT(syncmap(a, "resourceCache")[box(branchResource.ResourceId, string)], *DBResource) && syncmap(a, "resourceCache")[box(branchResource.ResourceId, string)].(*DBResource) != nil
+//@   ensures status-truthful: result0 == branch.BranchStatusPhasetwoRollbacked ==> called("RunUndo#1") && ghost.runundo_err_nil && result1 == nil
+//@   ensures failure-is-not-success: called("RunUndo#1") && !ghost.runundo_err_nil ==> result0 != branch.BranchStatusPhasetwoRollbacked && result0 != branch.BranchStatusPhasetwoCommitted
+//@   ensures unknown-resource: !known ==> result1 != nil && !called("RunUndo#1") && result0 != branch.BranchStatusPhasetwoRollbacked
+//@   ensures undo-success: called("RunUndo#1") && ghost.runundo_err_nil ==> result0 == branch.BranchStatusPhasetwoRollbacked && result1 == nil
+//@   at call RunUndo#1: assert addresses-this-branch: arg_xid == branchResource.Xid && arg_branchID == branchResource.BranchId
